@@ -398,3 +398,23 @@ def call_scallable(ctx, f, args, kwargs):
     if o[0] == "raise":
         raise PyRaise(SExc(o[1], o[2]))
     return o[1](ctx, args)
+
+
+# ------------------------------------------------------------------ constructors of synchronisation objects
+import threading as _th      # noqa: E402
+import queue as _qu          # noqa: E402
+
+
+def _mk_sync(kind, **st):
+    def make(ctx, args, kwargs):
+        d = dict(st)
+        if kind == "queue":
+            d["items"] = []
+        return SSync(kind, **d)
+    return make
+
+
+ModelsMixin.CLASS_MODELS[_th.Event] = _mk_sync("event", flag=False)
+ModelsMixin.CLASS_MODELS[_qu.Queue] = _mk_sync("queue")
+ModelsMixin.CLASS_MODELS[_th.Barrier] = _mk_sync("barrier")
+ModelsMixin.FUNCTION_MODELS["_thread.allocate_lock"] = _mk_sync("lock", held=False)
